@@ -174,6 +174,8 @@ func runC18(c *Ctx) error {
 	}{
 		{"abc", []string{"ints", "int"}}, {"abc", []string{"int", "ints"}}, {40, []string{"le=30", "le=3"}}, {40, []string{"le=3", "le=30"}},
 		{"abc", []string{"to=15~20", "to=5~20", "oto=15~20"}}, {7, []string{"ge=90", "ge=9", "ge=90"}}, {"abcd", []string{"noeq=4", "eq=5", "eq=5"}},
+		// a rule argument that ends with a blank, as the last thing in the rule text: the blank belongs to the argument
+		{"ab", []string{"suffix= "}}, {"xy", []string{"prefix=x "}}, {"ab", []string{"eq=3", "suffix= "}},
 	} {
 		rv := reflect.ValueOf(x.val)
 		tag := strings.Join(x.rules, ",")
